@@ -453,7 +453,8 @@ def stepMulti (line : String) : String :=
   | [head, tail] =>
     match head.splitOn " " with
     | _ :: kS :: stor :: i0S :: toks =>
-      match Kind.ofName kS, i0S.toNat? with
+      -- "pstruct": a struct-valued state travelling as strings (the statement-level model is the same)
+      match Kind.ofName (if kS == "pstruct" then "string" else kS), i0S.toNat? with
       | some k, some i0 =>
         if !(["G", "T", "B", "L"].contains stor) || i0 > 3 then "bad-op" else
         match parseStmts k (toks.filter (· != "")) with
